@@ -79,6 +79,7 @@ def check(ctx):
     ctx.rule("LEN", "boolean mask length is checked against nrow")
     ctx.rule("SIB-seen", "first-seen scan tests and records the key tuples themselves")
     ctx.rule("GRD-negslice", "no negated slice bound that can be 0")
+    ctx.rule("STATE", "the subsetting methods never read the grouping state an earlier group_by() left on the frame")
     n = 0
     for name, ops in list(KEEP.items()) + list(DROP.items()):
         fn = repo.fn(f"{DF}.{name}")
@@ -304,6 +305,11 @@ def check(ctx):
                                                          "drop_na", "sample", "unique")],
                   "succeeds on 0..N rows", only=lambda f: f.module.name == "dataiter.data_frame")
     ctx.note(f"{n} partial-operation site(s) reachable from the nine methods inside data_frame.py")
+    from .shared import state_read
+    k = state_read(ctx, [repo.fn(f"{DF}.{m}") for m in ("filter", "filter_out", "slice", "slice_off", "head", "tail",
+                                                         "drop_na", "sample", "unique")],
+                   "unique keeps exactly the first row of every distinct key combination (of the named or of all columns)")
+    ctx.count("functions scanned for reads of the grouping state", k, 9)
 
 
 def _is_mask_name(fn, call):
